@@ -474,6 +474,7 @@ class Interp:
         self.atoms = {}  # name -> (ty, lo, hi)
         self.assume = assume or {}  # (atom, bit) -> 0/1  (trace partition assumptions)
         self.top_ret_filter = None  # optional predicate on the outermost function's returned value: other returns are dropped
+        self.force_switch = None   # {block: value}: in the outermost function follow only that side of the branch at `block`
         self.record_switch = False  # emit a "switch" event (scrutinee value) for every branch executed
         self.kill_ret_variant = None  # optional: paths of the outermost function that return this enum variant are dropped
         self.split = split  # set of (atom, bit) on which to case-split lazily
@@ -1480,7 +1481,31 @@ class Interp:
 
     def do_switch(self, fn, b, st, d, arms, otherwise):
         if self.record_switch:
-            self.event("switch", fn, b, 0, val=d, arms=list(arms), otherwise=otherwise)
+            self.event("switch", fn, b, 0, val=d, arms=list(arms), otherwise=otherwise, depth=len(self.call_stack))
+        if self.force_switch and len(self.call_stack) == 1 and b in self.force_switch and d.kind == "int" and not d.is_const():
+            # path enumeration by the caller of the analysis: only the chosen side of this branch of the outermost function is
+            # followed, under the assumption that makes it the side taken
+            want = self.force_switch[b]
+            tgt = next((t_ for v_, t_ in arms if v_ == want), None)
+            s2 = st.copy()
+            if tgt is not None:
+                ok = self.assume_bool(s2, d, bool(want)) if d.ty == "bool" else self.assume_switch_eq(s2, d, want)
+            else:
+                tgt = otherwise
+                ok = True
+                if d.ty == "bool":
+                    rest = {0, 1} - {v_ for v_, _ in arms}
+                    ok = len(rest) == 1 and self.assume_bool(s2, d, bool(next(iter(rest))))
+                else:
+                    for v_, _ in arms:
+                        cur = self.find_vid(s2, d) or d
+                        if not self.assume_cmp(s2, "Ne", cur, IntV.const(d.ty, v_)):
+                            ok = False
+                            break
+            if not ok:
+                return []
+            s2.pc[-1][b] = (tgt, d.deps())
+            return [(tgt, s2)]
         if d.kind == "int":
             bit0 = d.bits[0] if d.w == 1 else None
             if bit0 is not None:
